@@ -294,7 +294,19 @@ def check_index_local(run, A):
     # one problem per leading index: np.ndindex(leading shape), or a plain / enumerate loop over the (flattened) eigenvalue sets
     it = strip_views(L.iter)
     ok = is_call_to(it, 'numpy.ndindex', 'builtin.range', 'builtin.enumerate', 'builtin.zip') or it.op in ('call', 'param', 'sub', 'mu', 'attr')
-    stores = [e for e in L.body_events if e.kind == 'store']
+    # (a store into a table of the object - `self._memo[key] = ...` - is not a write of a result; whether such a memo hands one problem's solution to another is R-STATE below)
+    selfp0 = g.params.get(g.self_name) if g.self_name else None
+    def table_of_self(b):
+        b = strip_views(b)
+        while isinstance(b, T) and b.op in ('mu', 'store'):
+            b = strip_views(b.args[0])
+        if not (isinstance(b, T) and b.op == 'attr'):
+            return False
+        o = strip_views(b.args[0])
+        while isinstance(o, T) and o.op in ('mu', 'store') and o is not selfp0:
+            o = strip_views(o.args[0])
+        return o is selfp0
+    stores = [e for e in L.body_events if e.kind == 'store' and not table_of_self(e.term.args[0])]
     undecided = []
 
     def loop_index(ix):
@@ -471,5 +483,8 @@ def check(run):
     check_axes(run, A)
     check_flatten_restore(run, A)
     check_index_local(run, A)
+    # a memo table of the trainer that is filled and read inside the per-problem loop hands the solution of one leading index to another unless the stored value is a function of the key
+    from . import c20 as _c20
+    _c20.check_instance_tables(run, A, ('pb_bss.distribution.complex_bingham',))
     check_constructors(run, A)
     check_field_ranks(run, A)
